@@ -27,6 +27,10 @@ package main
 // events and at most the number of events flushed when the query finished; the final queries return every
 // event exactly once.
 //
+// The suite also carries the op lines `c11c …` — schedules of the get-or-create machine of the segstore table
+// (Model/ConcCreate.lean: k concurrent first ingests on a new stream, flushes, removeStaleSegments) replayed on the
+// real getOrCreateSegStore / createSegStore / AddEntry: see c11_create.go.
+//
 // Suite "concstress" (EXPLORATION, not a proof and not a replay): `corr c11stress` runs concurrent ingest on
 // several indexes + periodic flush + forced rotation + repeated match-all queries under GOMAXPROCS 1/4/16 and
 // checks the same three clauses; in the thorough tier also with a `-race` build of the harness.
@@ -1031,7 +1035,7 @@ func genConc(r *rand.Rand, n int, tier string) []string {
 
 func init() {
 	register(&Suite{Name: "conc", Parallel: 6, Gen: genConc, Exec: execConc,
-		Rule: "schedules of the Lean interleaving machine (flush / rotation step / query step over 1–3 streams and 1–3 queries, fixed hand-over schedules first) replayed step by step on the real writer, metadata and query code in a fresh engine process each: rotation stopped before each protocol step (instrumented copy of segstore.go), queries stopped after each segment-list snapshot (product hook FilterQsrsHook); compared: order of executed steps, both snapshots, blocks read / count, open and rotated lists, final contents; non-trivial = ≥3 labels"})
+		Rule: "schedules of the Lean interleaving machine (flush / rotation step / query step over 1–3 streams and 1–3 queries, fixed hand-over schedules first) replayed step by step on the real writer, metadata and query code in a fresh engine process each: rotation stopped before each protocol step (instrumented copy of segstore.go), queries stopped after each segment-list snapshot (product hook FilterQsrsHook); compared: order of executed steps, both snapshots, blocks read / count, open and rotated lists, final contents; about 40% of the lines (c11c) are schedules of the get-or-create machine of the segstore table: 2–4 ingest calls doing the first ingest on one new stream (all past the nil check before anyone inserts / one stopped inside createSegStore / after the store was rotated and removed as stale / several streams), each call stopped before getSegStore, Lock, re-check, NewSegStore, the suffix-file write (product hook GetNextSuffixHook), insert, AddEntry (instrumented copy of segwriter.go), steps that would wait for allSegStoresLock skipped on both sides (blocked-step probes included on purpose); compared: executed steps, store every call appended to, stores built (registered / orphan, records), suffix hand-outs, acknowledged vs searchable after flush-all + rotate-all; non-trivial = ≥3 labels"})
 }
 
 func init() { registerWorker("c11worker", c11WorkerMain) }
